@@ -15,6 +15,9 @@ mod spec;
 mod wire;
 
 mod c15;
+mod c16;
+mod c17;
+mod c20;
 
 use std::path::PathBuf;
 
@@ -89,6 +92,9 @@ fn main() {
     let ctx = Ctx::new(id, seed, tier, scale, threads, out, replay, verbose);
     let code = match prop.as_str() {
         "C15" => c15::run(&ctx, evidence.as_ref()),
+        "C16" => c16::run(&ctx, evidence.as_ref()),
+        "C17" => c17::run(&ctx, evidence.as_ref()),
+        "C20" => c20::run(&ctx, evidence.as_ref()),
         _ => {
             eprintln!("unknown property {prop}");
             3
